@@ -56,6 +56,17 @@ def confirm(d):
         rc0, out0 = demo(wt, f"{d}/demo.py")
         res["demo_clean"] = [rc0, out0]
         a = subprocess.run(["git", "-C", wt, "apply", f"{d}/patch.diff"], capture_output=True, text=True)
+        if a.returncode:
+            # the tree has moved on since the seed was made (fix commits): try a three-way merge and keep the result
+            a = subprocess.run(["git", "-C", wt, "apply", "--3way", f"{d}/patch.diff"], capture_output=True, text=True)
+            if a.returncode == 0 and not subprocess.run(["git", "-C", wt, "diff", "--name-only", "--diff-filter=U"],
+                                                        capture_output=True, text=True).stdout.strip():
+                subprocess.run(["git", "-C", wt, "reset", "-q"], check=True)
+                shutil.copy(f"{d}/patch.diff", f"{d}/patch.orig.diff")
+                open(f"{d}/patch.diff", "w").write(subprocess.check_output(["git", "-C", wt, "diff"], text=True))
+                res["rebased"] = True
+            else:
+                a.returncode = 1
         res["applies"] = a.returncode == 0
         if a.returncode:
             res["apply_error"] = a.stderr[-300:]
@@ -110,7 +121,10 @@ def run(sid, props=None, tiers=("quick", "thorough")):
 if __name__ == "__main__":
     cmd = sys.argv[1]
     if cmd == "confirm":
-        print(json.dumps(confirm(sys.argv[2]), indent=1))
+        r = confirm(sys.argv[2])
+        json.dump(r, open(os.path.join(sys.argv[2], "confirm.json"), "w"), indent=1)
+        print(sys.argv[2], "confirmed" if r.get("confirmed") else "NOT-CONFIRMED",
+              {k: r.get(k) for k in ("applies", "rebased", "demo_clean", "demo_patched", "suite_regressions", "apply_error")})
     elif cmd == "run":
         print(json.dumps(run(sys.argv[2], sys.argv[3:] or None), indent=1))
     elif cmd == "all":
